@@ -46,7 +46,7 @@ type verifUpload interface {
 // k+1 for the control file, 0 for none) puts a directory in the destination where that file would be created.
 // Whatever fails: an error must leave the control file out of the destination (Move/Remove: still at its
 // source); success must leave everything complete and identical at the right place.
-func VerifC20Op(op, kind, k int, s0, s1, s2 int, ctl int, block int) int {
+func VerifC20Op(op, kind, k int, s0, s1, s2 int, ctl int, block int, stale int) int {
 	root, err := os.MkdirTemp("", "verifc20")
 	if err != nil {
 		return 90
@@ -78,18 +78,25 @@ func VerifC20Op(op, kind, k int, s0, s1, s2 int, ctl int, block int) int {
 	if block == k+1 {
 		os.MkdirAll(dst+"/"+ctlName, 0755)
 	}
+	// stale (1..k): the destination already holds a file of that name and size with other bytes (an earlier
+	// upload); it has to be replaced like any other
+	for i, n := range names {
+		if stale == i+1 && block != i+1 {
+			os.WriteFile(dst+"/"+n, []byte("CONTENT-"+n), 0644)
+		}
+	}
 	var h verifUpload
 	var filename *string
 	if kind == 0 {
 		d := &DSC{Filename: src + "/" + ctlName}
 		for _, n := range names {
-			d.Files = append(d.Files, MD5FileHash{FileHash{Algorithm: "md5", Hash: "00", Size: 1, Filename: n}})
+			d.Files = append(d.Files, MD5FileHash{FileHash{Algorithm: "md5", Hash: "00", Size: int64(len("content-" + n)), Filename: n}})
 		}
 		h, filename = d, &d.Filename
 	} else {
 		c := &Changes{Filename: src + "/" + ctlName}
 		for _, n := range names {
-			c.Files = append(c.Files, FileListChangesFileHash{FileHash: FileHash{Algorithm: "md5", Hash: "00", Size: 1, Filename: n}})
+			c.Files = append(c.Files, FileListChangesFileHash{FileHash: FileHash{Algorithm: "md5", Hash: "00", Size: int64(len("content-" + n)), Filename: n}})
 		}
 		h, filename = c, &c.Filename
 	}
@@ -212,6 +219,15 @@ func VerifC20Confine(op, kind int, name string) int {
 		if !verifIsFile(s, "sentinel:"+s) {
 			return 1
 		}
+	}
+	// files of the source directory that the control file does not list stay where they are
+	for _, n := range []string{"a", "aa"} {
+		if name != n && !verifIsFile(src+"/"+n, "sentinel:"+src+"/"+n) {
+			return 3
+		}
+	}
+	if !verifExists(src) {
+		return 4
 	}
 	// nothing from outside may have arrived in the destination
 	for _, n := range []string{"a", "aa"} {
